@@ -4,6 +4,6 @@
 P="$(realpath "$1")"; S=$(mktemp -d /tmp/evalref.XXXXXX); trap 'rm -rf "$S"' EXIT
 git -C /repo archive HEAD | tar -x -C "$S"
 (cd "$S" && git apply --whitespace=nowarn "$P" 2>/dev/null || patch -s -p1 < "$P") || { echo "$(basename $P): patch does not apply"; exit 2; }
-OUT=$(OCCHECK_REPO="$S" "${OCCHECK_BIN:-/verif/bin/occheck}" scan 2>&1)
+OUT=$(OCCHECK_VERIF=/verif OCCHECK_REPO="$S" "${OCCHECK_BIN:-/verif/bin/occheck}" scan 2>&1)
 echo "== $(basename $P): $(echo "$OUT" | tail -1)"
 echo "$OUT" | grep -E "^C[0-9]+ (falsified|undecided)" | sort | uniq -c
